@@ -323,6 +323,10 @@ func runC07(e *Env) {
 			if k, ok := flow.ConstInt(rs[0]); ok && k == 0 {
 				zero = true
 			}
+			// the zero value of any type (`return bpf.JumpIf{}, err` in a helper that hands out one instruction)
+			if k, ok := rs[0].(*ssa.Const); ok && k.Value == nil {
+				zero = true
+			}
 			// `return g()` of a module function whose own error returns are checked here as well
 			if e0, ok := rs[0].(*ssa.Extract); ok {
 				if e1, ok := rs[1].(*ssa.Extract); ok && e0.Tuple == e1.Tuple {
